@@ -67,8 +67,9 @@ def _twos(v, w):
     return v + sx.ite(v < 0, 1 << w, 0)
 
 
-def int_variable(code, access, spelling, doc_type):
-    """one variable of an integer type: default, parameter value (DCF), limits, PDO flag all symbolic"""
+def int_variable(code, access, spelling, doc_type, present="both"):
+    """one variable of an integer type: default, parameter value (DCF), limits, PDO flag all symbolic
+    (present: which of DefaultValue / ParameterValue the entry has - every combination is legal)"""
     name, w, signed = S301.INT_TYPES[code]
     lo, hi = S301.int_range(code)
     v = sx.fresh_int("default", lo, hi)
@@ -78,6 +79,13 @@ def int_variable(code, access, spelling, doc_type):
     pv = sx.fresh_int("pvalue", lo, hi) if doc_type == "dcf" else None
     e = Entry("Some %s" % name, 0x2000 + code, 0, code, access, pdo=pdo, default=v, low=low, high=high, value=pv,
               storage="PERSIST_COMM" if access == "rw" else None)
+    if present == "value-only":
+        e.default = None
+    elif present == "default-only":
+        e.value = pv = None
+    elif present == "neither":
+        e.default = None
+        e.value = pv = None
     if spelling == "hex":
         # hex: two's complement for the limits of signed types; defaults of signed types stay decimal
         e.default_text = num(v, "hex") if not signed else num(v)
@@ -89,12 +97,14 @@ def int_variable(code, access, spelling, doc_type):
         e.default_text, e.low_text, e.high_text = num(v), num(low), num(high)
         if pv is not None:
             e.value_text = num(pv)
+    if e.default is None:
+        e.default_text = None
     d = _base_doc()
     d.variable(e, "hex4" if spelling == "hex" else "dec")
     text = d.text()
     od = _import(text, "." + doc_type)
     sx.observe("text", text)
-    tag = "C08/int/%s" % name
+    tag = "C08/int/%s" % name + ("" if present == "both" else "/" + present)
     sx.prove(e.index in od, "object missing", tag + "/missing")
     if e.index not in od:
         return
@@ -336,6 +346,10 @@ def jobs(tier):
                                  ("rwr", "eds"), ("rww", "dcf"), ("Ro", "eds"))):
                 out.append(dict(func="int_variable", params=dict(code=code, access=access, spelling=spelling,
                                                                  doc_type=doc)))
+    for code in (0x05, 0x03, 0x15, 0x18):
+        for present in ("value-only", "default-only", "neither"):
+            out.append(dict(func="int_variable", params=dict(code=code, access="rw", spelling="dec", doc_type="dcf",
+                                                             present=present)))
     for form in ("prefix", "suffix"):
         for source in ("arg", "file", "both", "none"):
             for spaces in (0, 1):
